@@ -8,7 +8,7 @@ use crate::term::*;
 /// the syntactically significant alphabet: `c` is a command name (the recorder), `v` a variable
 pub const ALPHA: [&str; 15] = ["{", "}", "[", "]", "\"", "\\", "$", "(", ")", ";", "#", "*", " ", "\n", "a"];
 
-const PRELUDE: &str = "set a 1; set b(1) x; set b(a) y; proc c args {rec c {*}$args}";
+const PRELUDE: &str = "set a 1; set b(1) x; set b(a) y; set b(\u{e9}) z; set gr\u{f6}\u{df}e 42; set na\u{ef}ve yes; proc c args {rec c {*}$args}";
 
 pub fn mk(script: &str) -> Term {
     case(0, &[PRELUDE, script], &["a", "b"])
@@ -36,6 +36,21 @@ pub fn gen(tier: &str, seed: u64) -> Gen {
         "\\\n", "a$a", "$a$a", "x[rec i]y", "\"a\\\"b\"", "{\\{}", "{a\\\nb}", "$", "$(", "$a(", "${a", "{", "}", "\"", "[", "]", "\t",
         "\u{a0}", "c", "c 1 2",
     ];
+    // every word form of the pool, and a list of edge spellings, in three fixed contexts
+    // (deterministic: these are in every run)
+    let edges = [
+        "# a\\", "# a\\\\", "# a\\\\\\", "# C:\\dir\\\\", "#\\", "# x \\\n y", "\\ud800", "a\\uDFFFz", "\\U00110000", "\\UFFFFFFFF!",
+        "\\xg", "\\u12", "\\x4", "\\U1F600", "\\400", "\\8", "$gr\u{f6}\u{df}e", "$na\u{ef}ve", "$x\u{663}", "${a(\u{e9})}", "$b(\u{e9})", "$\u{e9}t\u{e9}",
+        "${b(1)}", "${b(a)}", "$b(1)(2)", "$a$", "$a(", "a$b(1)c", "{*}$b(1)", "{*}{a}b", "\"a\"b", "{a}{b}", "a;b", "a#b", "#a;b",
+    ];
+    let mut nd = 0;
+    for w in words.iter().chain(edges.iter()) {
+        cases.push(mk(&format!("rec before\n{}\nrec after", w)));
+        cases.push(mk(&format!("rec {} tail; rec after", w)));
+        cases.push(mk(&format!("rec \"q{}\" tail\nrec after [rec in {}]", w, w)));
+        nd += 3;
+    }
+    fams.push((format!("{} word forms and edge spellings (comments ending in runs of backslashes, invalid \\u escapes, non-ASCII variable names) x 3 fixed contexts", words.len() + edges.len()), nd, true));
     let nrand = if thorough { 100_000 } else { 3000 };
     for _ in 0..nrand {
         let k = 1 + rng.below(8);
